@@ -13,7 +13,7 @@ import re
 
 from hypothesis import strategies as st
 
-from .. import common, refdict
+from .. import common, gens, refdict
 from ..common import V, Collector
 
 PID = "C16"
@@ -71,6 +71,16 @@ def run_history(case):
                     # fast-forward of a long-lived process: as if 2^k - 2 Session-Ids had been generated so far (below 2^32)
                     if iu.SessionHandler.id < 2**op["k"] - 2:
                         iu.SessionHandler.id = 2**op["k"] - 2
+                    continue
+                if k == "new-node":
+                    # the application creates (another) node object between two Session-Id generations; nothing is started
+                    import struct as _struct
+                    from bromelia.setup import Diameter
+                    Diameter(config={"MODE": "CLIENT", "TRANSPORT_TYPE": "TCP",
+                                     "APPLICATIONS": [{"vendor_id": _struct.pack(">I", 10415), "app_id": _struct.pack(">I", 16777251)}],
+                                     "LOCAL_NODE_HOSTNAME": IDENTS[op["ident"]], "LOCAL_NODE_REALM": "realm", "LOCAL_NODE_IP_ADDRESS": "127.0.0.1",
+                                     "LOCAL_NODE_PORT": 3868, "PEER_NODE_HOSTNAME": "peer.remote.example", "PEER_NODE_REALM": "realm",
+                                     "PEER_NODE_IP_ADDRESS": "127.0.0.2", "PEER_NODE_PORT": 3868, "WATCHDOG_TIMEOUT": 30})
                     continue
                 if k == "bytes":
                     raw = bytes.fromhex(op["x"])
@@ -183,11 +193,15 @@ op = st.one_of(
     st.builds(lambda m, i: {"op": "update-shared", "msg": m, "ident": i}, st.integers(0, 5), ident),
     st.builds(lambda k: {"op": "ffwd", "k": k}, st.sampled_from([8, 16, 24, 28, 30, 31])),
     st.builds(lambda x: {"op": "bytes", "x": x.hex()}, st.binary(max_size=20)),
+    st.builds(lambda t, k: {"op": "bytes", "x": (t if k == 0 else f"peer.example;1;2;{t}" if k == 1 else f"{t}.example;7;9").encode("utf-8").hex()},
+              gens.tricky_text, st.integers(0, 2)),
+    st.builds(lambda i: {"op": "new-node", "ident": i}, ident),
     st.builds(lambda h, l, d: {"op": "typed-foreign", "high": h, "low": l, "decoded": d},
               st.sampled_from([1, 2**31, 2**32 - 1, 3923553690, 3923553600, 3923553599]), st.integers(0, 9), st.booleans()),
     st.builds(lambda m, i, o, x: {"op": "update-bytes", "msg": m, "ident": i, "order": o, "x": x.hex()}, st.integers(0, 5), ident, st.integers(0, 1),
               # Session-Id is a UTF8String: text only (a later regeneration reads the previous id as text)
               st.one_of(st.text(min_size=1, max_size=12).map(lambda t: t.encode("utf-8")), st.just(b"peer.remote.example;1;2"),
+                        gens.tricky_text.map(lambda t: f"peer.remote.example;1;2;{t}".encode("utf-8")),
                         st.just(b"peer.remote.example;4294967295;2;x"))),
     st.builds(lambda d: {"op": "tick", "d": d}, st.sampled_from([0, 0, 0, 1, 1, 1000])),
 )
